@@ -174,6 +174,13 @@ P["C19"] = {
     "assumptions": A_CORE[:2] + A_TIME,
 }
 
+P["C14"] = {
+    "common": {"validate": 40, "runs": [{"pattern": "verifHarness_C14_", "label_filter": "C14:"}]},
+    "thorough": {"validate": 200},
+    "bounds": "NARROW CLAIM: only the repository's hand-written JSON layer (Schema.MarshalJSONTo, Schema.UnmarshalJSONFrom) is decided, executed for real against a token-level contract model of go-json-experiment/json (jsontext.Encoder = token recorder, jsontext.Decoder = token cursor, json.MarshalEncode / UnmarshalDecode walk Go values by the struct tags of the CURRENT source with v2 omitempty, unknown members ignored, duplicate names rejected, and call back into the real methods). Schema family: every type name (plain primitive; long/int with logicalType; fixed with name, namespace and an arbitrary symbolic size; enum with and without symbols; record with 0..2 fields in either order; array; map; unions [X], [null,X], [X,null], [null,X,string]), nested to depth 2 (thorough 3), each composite with one freely chosen child. For every schema: MarshalJSONTo succeeds, its token stream is one well-formed JSON value (balanced, name/value pairs, distinct names), and UnmarshalJSONFrom of that stream - as emitted, with the members of every object in reverse order, and with unknown attributes (doc, aliases, default) inserted into every object - yields an identical schema and consumes the whole stream. The model is validated on every run: the sampled schemas are pushed through the real library natively (json.Marshal, text re-ordered / extended with jsontext, SchemaFromString) and must give the same outcomes.",
+    "outside": "everything decided inside the library: whitespace and text layout, escaping, rejection of malformed JSON text, number syntax; key-order and unknown-attribute independence hold by the model's (validated) contract of the library plus the real hoisting code in UnmarshalJSONFrom; schemas deeper than the bound or with several free children per composite",
+    "assumptions": A_CORE[:2] + ["token-level contract model of github.com/go-json-experiment/json (engine/jsonmodel.go), validated natively against the real library on every run"],
+}
 P["C15"] = {
     "common": {"validate": 100, "runs": [{"pattern": "verifHarness_C15_", "label_filter": "C15:"}]},
     "thorough": {"validate": -1},
